@@ -652,4 +652,52 @@ theorem glag_replicate (ys : List α) (ini m : α) (t k : Nat) (hk : k < p) (ht 
     simp [h1, h2, List.getD_eq_getElem?_getD]
   · simp [h1]
 
+
+/-! ### the lag buffer is the whole state: a run can be cut anywhere and resumed from it (any `isnan`) -/
+
+theorem simRun_append (nan : α → Bool) (ps : Vector α p) (m : α) :
+    ∀ (es1 es2 : List (Option α)) (buf : Vector α p),
+      simRun nan ps m buf (es1 ++ es2) =
+        simRun nan ps m buf es1 ++ simRun nan ps m (simBuf nan ps buf es1) es2 := by
+  intro es1; induction es1 with
+  | nil => intro es2 buf; rfl
+  | cons e es ih => intro es2 buf; simp only [List.cons_append, simRun, simBuf, ih]
+
+theorem simBuf_append (nan : α → Bool) (ps : Vector α p) :
+    ∀ (es1 es2 : List (Option α)) (buf : Vector α p),
+      simBuf nan ps buf (es1 ++ es2) = simBuf nan ps (simBuf nan ps buf es1) es2 := by
+  intro es1; induction es1 with
+  | nil => intro es2 buf; rfl
+  | cons e es ih => intro es2 buf; simp only [List.cons_append, simBuf, ih]
+
+theorem resRun_append (nan : α → Bool) (ps : Vector α p) (m : α) :
+    ∀ (xs1 xs2 : List (Option α)) (buf : Vector α p),
+      resRun nan ps m buf (xs1 ++ xs2) =
+        resRun nan ps m buf xs1 ++ resRun nan ps m (resBuf nan ps m buf xs1) xs2 := by
+  intro xs1; induction xs1 with
+  | nil => intro xs2 buf; rfl
+  | cons x xs ih => intro xs2 buf; simp only [List.cons_append, resRun, resBuf, ih]
+
+theorem resBuf_append (nan : α → Bool) (ps : Vector α p) (m : α) :
+    ∀ (xs1 xs2 : List (Option α)) (buf : Vector α p),
+      resBuf nan ps m buf (xs1 ++ xs2) = resBuf nan ps m (resBuf nan ps m buf xs1) xs2 := by
+  intro xs1; induction xs1 with
+  | nil => intro xs2 buf; rfl
+  | cons x xs ih => intro xs2 buf; simp only [List.cons_append, resBuf, ih]
+
+/-! ### `numpy.nanmean`: defined exactly when some value is present -/
+
+omit [CommRing α] in
+theorem dataCount_eq_zero_iff (xs : List (Option α)) : dataCount xs = 0 ↔ ∀ x ∈ xs, x = none := by
+  unfold dataCount
+  rw [List.length_eq_zero_iff, List.filter_eq_nil_iff]
+  constructor
+  · intro h x hx
+    have := h x hx
+    cases x with
+    | none => rfl
+    | some v => simp at this
+  · intro h x hx
+    rw [h x hx]; simp
+
 end HydroVerif.C17
